@@ -137,12 +137,14 @@ CHECKS = {
    design="5/C18", note=TB + "iwrb_back on a wrapped ring only partially specified (the ring has no count field). Allocation-failure paths, iwxstr_set_size, child pools are oracle/sanitizer only.",
    technique="Coq refinement proofs + white-box extracted-model vs implementation correspondence + sanitizers"),
  "C19": dict(
-   text="Proof (Coq) over a Gallina model of the varint macros, iwitoa/iwatoi, hex codecs and key comparators: round-trip, "
-        "length = IW_VNUMSIZE (macro translated from the current source), rejection of sign-bit values, for all 64-bit values; "
-        "model tied to the code by differential execution of extracted model vs implementation and a property-level oracle.",
+   text="Proof (Coq): varint round trip, length = IW_VNUMSIZE (macro translated from the current source), rejection of sign-bit values, for all 64-bit values; "
+        "iwatoi inverts the decimal text iwitoa writes for every 64-bit value incl. INT64_MIN (wrap-around explicit); hex round trip (finite sweep over all bytes lifted); "
+        "the byte-key comparator is a strict total order equal only on identical keys. Model tied by differential execution vs the implementation's static functions and a "
+        "property-level oracle on key triples per key mode, all buffer sizes 0..64 with guard bytes.",
    design="5/C19",
-   note=TB + "iwafcmp fractions: exact rationals in the model vs long double in C (generator stays where both agree).",
-   technique="Coq proof (induction + lia) over hand-written model; extracted-model vs implementation correspondence; regenerated facts"),
+   note=TB + "Partial: buffer bounds of iwitoa for every size, and the order laws / numeric agreement / prefix agreement of integer, real-number and compound comparators are "
+        "decided by model-vs-implementation comparison and the oracle, not proved. iwafcmp fractions: exact rationals in the model vs long double in C (generator stays where both agree).",
+   technique="Coq proofs (induction + lia, finite sweep) over hand-written model; extracted-model vs implementation correspondence; regenerated facts"),
 }
 PENDING = {}
 ALL = ["C%02d" % i for i in range(1, 21)]
